@@ -886,8 +886,8 @@ func TestC19ServerCancel(t *testing.T) {
 }
 
 // The limiter (finding F11, known): a server that NAKs every REQUEST makes the client spin through its states until the
-// limiter trips; the client then sleeps 20 s regardless of the context and panics.  Nothing is reported as a violation
-// here; the observed delay goes to the evidence only.  Sockets must still be balanced.
+// limiter trips; the client then sleeps 20 s regardless of the context and panics.  The delay is reported as a violation
+// of kind limiter-sleep-ignores-cancel, which known_findings.json lists as the known finding F11.  Sockets must still be balanced.
 func TestC19ClientLimiter(t *testing.T) {
 	vl := &violationLog{}
 	st := newC19stats()
@@ -910,6 +910,10 @@ func TestC19ClientLimiter(t *testing.T) {
 		<-c.done
 		d := time.Since(t0)
 		st.delay("client limiter tripped (F11): cancel -> Run ends by panic", d)
+		if d > time.Second {
+			// prompt shutdown violated on the limiter's exit path: listed in known_findings.json as F11 (status known)
+			vl.add("limiter-sleep-ignores-cancel", "client cancelled while the tripped limiter sleeps: Run returned %v after cancel (by panic=%v)", d, c.panicked != nil)
+		}
 		settle(base0, 5*time.Second)
 		o, cl := c.seg.Counters()
 		if o != cl || !goroutinesAt(base0, 0) {
